@@ -670,4 +670,105 @@ theorem fit_validation_errors (npts nAnl : Nat) (loss : Loss) (bias : Bool) :
   by_cases h1 : npts < 4 <;> by_cases h2 : nAnl < 1 <;> cases loss <;> cases bias <;> simp [h1, h2] <;> omega
 example : (3 : Nat) < 4 ∧ (4 : Nat) ≤ 4 ∧ Loss.gaussian ≠ Loss.other := by decide
 
+/-! ## The hypotheses of the error-propagation theorems are ESTABLISHED by the constructor -/
+
+/-- Brenner's axial correction is positive for every bead that does not touch the surface -/
+theorem brenner_correction_pos (h : ℝ) (h0 : 0 ≤ h) (h1 : h < 1) : 0 < brennerSpec h :=
+  brennerSpec_pos' h h0 h1
+example : (0:ℝ) ≤ 1 / 2 ∧ (1:ℝ) / 2 < 1 := by norm_num
+
+/-- … and `h < 1` is necessary: at contact (`l = R`, which the constructor accepts) the denominator
+    of Brenner's factor is exactly zero -/
+theorem brenner_singular_at_contact :
+    (1:ℝ) - 9 / 8 * 1 + 1 / 2 * 1 ^ 3 - 57 / 100 * 1 ^ 4 + 1 / 5 * 1 ^ 5 + 7 / 200 * 1 ^ 11
+      - 1 / 25 * 1 ^ 12 = 0 ∧ brennerSpec 1 = 0 := by
+  refine ⟨brenner_den_contact, ?_⟩
+  unfold brennerSpec
+  rw [brenner_den_contact]; simp
+
+/-- every model the constructor accepts (an axial one not exactly at contact) has a positive
+    corrected drag, hence `k_BT/γ > 0`: the hypothesis of `err_Rd_is_propagation` -/
+theorem constructed_model_drag_pos (o : Opts ℝ) (m : Mdl ℝ) (hm : mkModel o = .ok m)
+    (hax : ∀ l, o.hydro = false → o.axial = true → o.dist = some l → o.d / 2 < l) :
+    0 < m.drag ∧ 0 < kT m.o.temp / m.drag := constructed_drag_pos' o m hm hax
+example : mkModel oBrenner = .ok (build oBrenner) ∧
+    ∀ l, oBrenner.hydro = false → oBrenner.axial = true → oBrenner.dist = some l → oBrenner.d / 2 < l := by
+  refine ⟨oBrenner_ok, ?_⟩
+  intro l _ _ hl
+  have : l = 2 := by simpa [oBrenner, oBulk] using hl.symm
+  rw [this]; simp [oBrenner, oBulk]; norm_num
+
+/-- Gaussian error propagation for every constructed model, without side conditions on the model:
+    for `f_c > 0`, `D > 0` the reported errors are `|∂κ/∂f_c|·σ_fc` and `|∂R_d/∂D|·σ_D`, and
+    `κ > 0` -/
+theorem error_propagation_constructed (o : Opts ℝ) (m : Mdl ℝ) (hm : mkModel o = .ok m)
+    (hax : ∀ l, o.hydro = false → o.axial = true → o.dist = some l → o.d / 2 < l)
+    (fc D sfc sD : ℝ) (hfc : 0 < fc) (hD : 0 < D) :
+    HasDerivAt (fun x => (passiveResults m x D sfc sD).kappa)
+        ((passiveResults m fc D sfc sD).kappa / fc) fc ∧
+    HasDerivAt (fun x => (passiveResults m fc x sfc sD).rd)
+        (-((passiveResults m fc D sfc sD).rd / (2 * D))) D ∧
+    0 < (passiveResults m fc D sfc sD).kappa ∧
+    (passiveResults m fc D sfc sD).errKappa = |(passiveResults m fc D sfc sD).kappa / fc| * sfc ∧
+    (passiveResults m fc D sfc sD).errRd = |-((passiveResults m fc D sfc sD).rd / (2 * D))| * sD := by
+  obtain ⟨hdrag, hc⟩ := constructed_drag_pos' o m hm hax
+  obtain ⟨h1, h2⟩ := err_kappa_is_propagation m fc D sfc sD hfc.ne'
+  obtain ⟨h3, h4⟩ := err_Rd_is_propagation m fc D sfc sD hD hc
+  have hk : 0 < (passiveResults m fc D sfc sD).kappa := by
+    have := passive_kappa_SI m fc D sfc sD
+    have hpos : 0 < 2 * Real.pi * m.drag * fc := by have := Real.pi_pos; positivity
+    nlinarith
+  refine ⟨h1, h3, hk, ?_, h4⟩
+  rw [h2, abs_of_pos (div_pos hk hfc)]
+example : (0:ℝ) < 1 := one_pos
+
+/-- the function of frequency the `c11.chi2` op sums over is, for a non-hydrodynamic model with a
+    free diode filter, the Lorentzian × diode spectrum -/
+theorem psdOr_lorentz_diode (m : Mdl ℝ) (hh : m.o.hydro = false) (fc D fd al nan : ℝ) :
+    m.psdOr .diode fc D [fd, al] nan = fun f => lorentzDiodePsd f fc D fd al := by
+  funext f
+  simp [Mdl.psdOr, (spectrum_model_lorentz_diode m hh f fc D fd al).1]
+example : (build oBulk).o.hydro = false := rfl
+
+/-- RECOVERY, stated on the model's own evaluation path (`Mdl.psd` through `psdOr`, what the
+    `c11.chi2` op runs against `chi_squared_per_deg` of the code): for a constructed non-hydrodynamic
+    model, a spectrum generated with `(f_c, D, f_diode, α)` inside the ordered box is fitted with
+    objective value 0 by these parameters and by no other parameters of the ordered box -/
+theorem fit_recovery_unique_model (m : Mdl ℝ) (hh : m.o.hydro = false) (fs : List ℝ)
+    (n fc D fd al fc' D' fd' al' f1 f2 f3 f4 nan : ℝ) (hn : 0 < n)
+    (hfc : 0 < fc) (hord : fc < fd) (hD : 0 < D) (hal : 0 ≤ al) (hal1 : al < 1)
+    (hfc' : 0 < fc') (hord' : fc' < fd') (hal' : 0 ≤ al')
+    (m1 : f1 ∈ fs) (m2 : f2 ∈ fs) (m3 : f3 ∈ fs) (m4 : f4 ∈ fs)
+    (h12 : f1 ^ 2 ≠ f2 ^ 2) (h13 : f1 ^ 2 ≠ f3 ^ 2) (h14 : f1 ^ 2 ≠ f4 ^ 2) (h23 : f2 ^ 2 ≠ f3 ^ 2)
+    (h24 : f2 ^ 2 ≠ f4 ^ 2) (h34 : f3 ^ 2 ≠ f4 ^ 2) :
+    chi2 (m.psdOr .diode fc D [fd, al] nan) n fs (fs.map (m.psdOr .diode fc D [fd, al] nan)) = 0 ∧
+    (chi2 (m.psdOr .diode fc' D' [fd', al'] nan) n fs (fs.map (m.psdOr .diode fc D [fd, al] nan)) = 0 →
+      fc' = fc ∧ D' = D ∧ fd' = fd ∧ al' = al) := by
+  rw [psdOr_lorentz_diode m hh, psdOr_lorentz_diode m hh]
+  have hfd : 0 < fd := by linarith
+  refine ⟨(fit_objective_minimised_by_generating _ (fun f => lorentzDiodePsd f fc D fd al) n hn fs
+    (fun f _ => (ld_pos f fc D fd al hfc hD hfd).ne')).1, ?_⟩
+  intro hchi
+  exact fit_recovery_unique_lorentz_diode fs n fc D fd al fc' D' fd' al' f1 f2 f3 f4 hn hfc hord hD hal
+    hal1 hfc' hord' hal' m1 m2 m3 m4 h12 h13 h14 h23 h24 h34 hchi
+example : (build oBulk).o.hydro = false ∧ (0:ℝ) ∈ [(0:ℝ), 1, 2, 3] ∧ (0:ℝ) ^ 2 ≠ 1 ^ 2 := by
+  refine ⟨rfl, by simp, by norm_num⟩
+
+/-- `DrivenPower.determine_power_output` takes the largest power density of the spectrum around
+    the driving peak (`np.argmax`) -/
+theorem driven_power_peak_is_max (powers : List ℝ) (p : ℝ) (h : peakPower powers = some p) :
+    p ∈ powers ∧ ∀ x ∈ powers, x ≤ p := by
+  unfold peakPower at h
+  have hne : powers ≠ [] := by
+    intro h0; rw [h0] at h; simp at h
+  obtain ⟨hlt, hmax, -⟩ := argmax_spec powers hne
+  rw [List.getElem?_eq_getElem hlt] at h
+  injection h with h
+  subst h
+  exact ⟨List.getElem_mem _, hmax⟩
+example : peakPower ([1, 3, 2] : List ℝ) = some 3 := by
+  have : argmax ([1, 3, 2] : List ℝ) = 1 := by
+    simp [argmax, argmaxGo, RealLike.lt]; norm_num
+  simp [peakPower, this]
+
 end Verif.C11
